@@ -343,6 +343,49 @@ func scReplayCommon(c *scCase) Verdict {
 		strs = append(strs, strconv.FormatFloat(vals[i], 'g', -1, 64))
 	}
 	concrete := fmt.Sprintf("CommonScale([%s], %v)", strings.Join(strs, " "), cls)
+	if v := scCommonRow(c, cls, vals, concrete); !v.OK {
+		return v
+	}
+	if c.Min.Q == 0 {
+		return pass()
+	}
+	// wide rows: the same smallest non-zero magnitude among 20..100 values, the others being
+	// zeros and (signed) copies of the row's largest magnitude - the answer is the same
+	minAbs, maxAbs := math.Inf(1), 0.0
+	for _, x := range vals {
+		if a := math.Abs(x); a != 0 {
+			minAbs, maxAbs = math.Min(minAbs, a), math.Max(maxAbs, a)
+		}
+	}
+	h := scMix(int64(len(vals)), int64(c.Min.Q), int64(c.Min.K), 29)
+	for _, n := range []int{[]int{20, 21, 25, 33}[h%4], []int{40, 64, 65, 100}[(h>>3)%4]} {
+		wide := append([]float64(nil), vals...)
+		for i := len(wide); i < n; i++ {
+			switch (h >> uint(i%40)) % 5 {
+			case 0:
+				wide = append(wide, 0)
+			case 1:
+				wide = append(wide, -maxAbs)
+			default:
+				wide = append(wide, maxAbs)
+			}
+		}
+		// the smallest magnitude anywhere in the row
+		at := int((h >> 7) % uint64(n))
+		for i, x := range wide {
+			if math.Abs(x) == minAbs {
+				wide[i], wide[at] = wide[at], wide[i]
+				break
+			}
+		}
+		if v := scCommonRow(c, cls, wide, fmt.Sprintf("%s widened to %d values (zeros and +-%v added, smallest at %d)", concrete, n, maxAbs, at)); !v.OK {
+			return v
+		}
+	}
+	return pass()
+}
+
+func scCommonRow(c *scCase, cls benchunit.Class, vals []float64, concrete string) Verdict {
 	sc := benchunit.CommonScale(vals, cls)
 	if c.Min.Q == 0 {
 		o := sc.Format(0)
@@ -414,6 +457,20 @@ func scReplayUnit(c *scCase) Verdict {
 		v := fail(sig, "%s = %v, bytes in numerator: %v", concrete, got, c.Binary)
 		v.Concrete = concrete
 		return v
+	}
+	// the class is a function of the unit string: asking again after the unit (and a longer unit
+	// with the same numerator, of the kind the tidying cache keeps) has been through Tidy gives
+	// the same answer, and so does the tidied spelling (MB becomes B, ns becomes sec: bytes stay bytes)
+	for _, u := range []string{unit, unit + "/conns", unit + "/MB-x"} {
+		before := benchunit.ClassOf(u)
+		_, tidied := benchunit.Tidy(1, u)
+		after := benchunit.ClassOf(u)
+		ct := benchunit.ClassOf(tidied)
+		if (before == benchunit.Binary) != c.Binary || after != before || ct != before {
+			v := fail("classof-changes-with-tidy-history", "ClassOf(%q) = %v before Tidy, %v after; ClassOf(tidied %q) = %v; bytes in numerator: %v", u, before, after, tidied, ct, c.Binary)
+			v.Concrete = concrete
+			return v
+		}
 	}
 	// the class selects the prefix family
 	o := benchunit.Scale(1536, got)
